@@ -322,7 +322,27 @@ func runC11(ctx *Ctx, idx int) {
 			fam = 1 // (once per instance; the other goroutine counts get a small trie)
 		}
 	}
+	if instNo%15 == 0 {
+		fam = 7 // the keys part ways in the middle of a byte, leaves directly below the root
+	}
 	switch fam {
+	case 7:
+		// a1 a2 a3 / id:0 .. id:9: a common prefix of an odd number of half-bytes,
+		// a root with up to 16 children, several of them leaves without a tail,
+		// some with longer keys below
+		p := string(r.Bytes(r.Intn(4)))
+		h := byte(r.Intn(16)) << 4
+		var k []string
+		for x := 0; x < 16; x++ {
+			if r.Chance(2, 3) {
+				k = append(k, p+string([]byte{h | byte(x)}))
+				if r.Chance(1, 3) {
+					k = append(k, p+string([]byte{h | byte(x)})+string(r.Bytes(r.Range(1, 4))))
+				}
+			}
+		}
+		k = append(k, p+string([]byte{h | 1}), p+string([]byte{h | 2}), p+string([]byte{h | 3}))
+		ks = KeySet{"odd-halfbyte-root-prefix", sortUniq(k)}
 	case 5:
 		k := genSmallAlpha(r)
 		for len(k) < 12 {
